@@ -420,7 +420,7 @@ void runCase(const Case &cs, std::ostream &out)
 	});
 	s.compileProgram(design.getCircuit());
 	s.powerOn();
-	for (size_t guard = 0; !done && guard < stim.size() + 200; guard++)
+	for (size_t guard = 0; !done && guard < stim.size() + 2 * depth + 300; guard++)
 		s.advance(hlim::ClockRational(1, 100'000'000));
 	for (auto &l : lines) out << l << "\n";
 	if (!done) out << "X " << cs.get("id") << " simulation did not reach the end of the stimulus\n";
